@@ -275,9 +275,9 @@ func TestExhaustiveSequences(t *testing.T) {
 		}
 		if len(cur) > 0 {
 			idx++
-			sampledOut := !rec.Thorough() && len(cur) >= 3 && (idx+int(rec.Seed()))%3 != 0
+			sampledOut := !rec.Thorough() && len(cur) >= 3 && (idx+int(rec.Seed()))%6 != 0
 			if sampledOut {
-				complete = false // quick tier: a seed-chosen third of the sequences of three one-line items
+				complete = false // quick tier: a seed-chosen sixth of the sequences of three one-line items
 			}
 			if rec.Mine(idx) && !sampledOut {
 				text, bounds := render(cur, "\n", true)
@@ -325,7 +325,7 @@ func TestExhaustiveSequences(t *testing.T) {
 // TestRandomSequences: longer sequences, nesting, CRLF, indentation, "#!" line, missing final newline.
 func TestRandomSequences(t *testing.T) {
 	buildAlphabet()
-	rec.Check(t, rec.Scale(4000, 60000), func(t *rapid.T) {
+	rec.Check(t, rec.Scale(2500, 60000), func(t *rapid.T) {
 		n := rapid.IntRange(1, 12).Draw(t, "nitems")
 		var items []item
 		for i := 0; i < n; i++ {
